@@ -157,6 +157,7 @@ UsesOK(lin, n0, n1) ==     \* a binary (or unary) rule uses each argument of its
   LET fo == FanOutOf(lin) IN
   /\ Len(fo) >= 2 /\ fo[2] = n0 /\ (n1 > 0 => (Len(fo) = 3 /\ fo[3] = n1))
   /\ Cardinality(Pairs(lin)) = Cardinality(RefsOf(lin))
+  /\ \A e \in RefsOf(lin) : e[1] \in {0, 1} /\ e[2] >= 0 /\ e[2] < (IF e[1] = 0 THEN n0 ELSE n1)
 RuleVal(lin, v0, v1) ==
   [a \in 1..Len(lin) |->
      FlattenSeq([j \in 1..Len(lin[a]) |->
